@@ -509,6 +509,8 @@ def c19(tier, seed):
         for mode in ("orders", "vectors"):
             shards.append(Shard(mem_asan, ["--mode", mode, "--prec", p, "--seed", S(seed)], "asan/%s/%s" % (mode, p), env=ASAN_ENV, timeout=3600))
         shards.append(Shard(mem_excasan, ["--mode", "extremes", "--prec", p, "--seed", S(seed)], "exc-asan/extremes/%s" % p, env=ASAN_ENV, timeout=3600))
+        shards.append(Shard(mem_excasan, ["--mode", "strings", "--prec", p, "--seed", S(seed)], "exc-asan/strings/%s" % p, env=ASAN_ENV, timeout=3600))
+        shards.append(Shard(mem_asan, ["--mode", "strings", "--prec", p, "--seed", S(seed)], "asan/strings/%s" % p, env=ASAN_ENV, timeout=3600))
         shards.append(Shard(mem_plain, ["--mode", "growth", "--prec", p], "plain/growth/%s" % p))
     shards.append(Shard(mem_asan, ["--mode", "carrays", "--seed", S(seed)], "asan/carrays", env=ASAN_ENV))
     # the history / catalogue / C-ABI / name workloads again, under the sanitizers
@@ -544,7 +546,7 @@ def c19(tier, seed):
            "rule": "API histories run under ASan+UBSan+LSan (reports fatal, detect_leaks=1, detect_stack_use_after_return=1, strict_string_checks=1) and valgrind memcheck "
                    "(--track-origins, leak kinds definite+indirect): all ordered pairs of solution types initialised on one handle and on two handles, every solution in 3 random "
                    "orders on a dirtied heap with one evaluation of everything, vector parameters re-set 64->0->1->64->3->0->200->2, C array calls n=0..40 into exact-size heap buffers, "
-                   "masa_get_name into an uninitialised heap buffer, invalid gradient indices / moment orders -3..25 / extreme finite arguments, and the C10-C17 history, sweep, "
+                   "masa_get_name into an uninitialised heap buffer, hostile strings (empty, 100 kB, embedded NUL/control bytes) as handle, solution, parameter and vector names, invalid gradient indices / moment orders -3..25 / extreme finite arguments, and the C10-C17 history, sweep, "
                    "catalogue, C-ABI and name workloads again. Conservation monitor: live solution objects == registered handles after every operation. Plain build: heap in use "
                    "after 1000 further masa_init calls. Distinct = shards (one history each) + ordered init pairs.",
            "shards_by_tool": {"asan+ubsan+lsan": sum(1 for s in shards if s.env is ASAN_ENV), "valgrind": sum(1 for s in shards if s.wrapper), "plain": 2},
